@@ -55,7 +55,7 @@ def workflows(thorough: bool) -> list[Wf]:
           Wf(2, "AND", signal=True), Wf(3, "DISCRIMINATOR"), Wf(3, "N_OF_M", 2), Wf(2, "AND", pre=False), Wf(2, "DISCRIMINATOR", pre=False)]
     if thorough:
         ws += [Wf(2, "N_OF_M", 2), Wf(3, "AND"), Wf(3, "OR"), Wf(3, "MULTI_MERGE"), Wf(3, "N_OF_M", 1), Wf(3, "N_OF_M", 3),
-               Wf(2, "DISCRIMINATOR", signal=True), Wf(3, "N_OF_M", 2, signal=True), Wf(3, "DISCRIMINATOR", pre=False), Wf(2, "MULTI_MERGE", pre=False)]
+               Wf(2, "DISCRIMINATOR", signal=True), Wf(3, "DISCRIMINATOR", pre=False), Wf(2, "MULTI_MERGE", pre=False)]
     return ws
 
 
@@ -258,7 +258,10 @@ class Lab:
 
     def apply_prefix(self, env, prefix: list[str]) -> None:
         for item in prefix:
-            if item == "+SG(j)":
+            if item == "~":
+                # everything except the upstream completions runs to quiescence (j and d finish; remaining branches finish later)
+                env.drain(max_steps=60, hold=lambda c: c.startswith("CS(u"))
+            elif item == "+SG(j)":
                 from stabilize.queue.messages import SignalStage
 
                 env.push(SignalStage(execution_type=env.wf_type, execution_id=env.wf_id, stage_id=env.ids["j"], signal_name="go",
@@ -273,11 +276,11 @@ class Lab:
 RACE_CODES = re.compile(r"^(CS\(u\d+\)|SS\(j\)|SG\(j\))$")
 
 
-def enum_prefixes(lab: Lab, wf: Wf, maxlen: int) -> list[list[str]]:
+def enum_prefixes(lab: Lab, wf: Wf, maxlen: int) -> list[tuple[list[str], list[str]]]:
     """All states reachable from S0 by sequential deliveries of the racing message kinds (symmetry: lowest pending upstream first)."""
     mb = lab.mb
     env, snap0, meta = lab.base(wf)
-    out: list[list[str]] = []
+    out: list[tuple[list[str], list[str]]] = []
     seen: set[str] = set()
     frontier: list[list[str]] = [[]]
     while frontier:
@@ -290,7 +293,7 @@ def enum_prefixes(lab: Lab, wf: Wf, maxlen: int) -> list[list[str]]:
             continue
         seen.add(line)
         pend = [c for _, c in env.pending() if RACE_CODES.match(c)]
-        out.append(prefix)
+        out.append((prefix, pend))
         if len(prefix) >= maxlen:
             continue
         nxt: list[str] = []
@@ -303,6 +306,8 @@ def enum_prefixes(lab: Lab, wf: Wf, maxlen: int) -> list[list[str]]:
             nxt.append("SG(j)")
         if wf.signal and "+SG(j)" not in prefix:
             nxt.append("+SG(j)")
+        if "~" not in prefix and env.stage_row("j")["status"] == "RUNNING" and cs:
+            nxt.append("~")
         for x in nxt:
             frontier.append(prefix + [x])
     return out
@@ -363,6 +368,8 @@ def run_one(lab: Lab, wf: Wf, prefix: list[str], ops: list[dict], snap, meta, re
             built = (op, o.get("at"))
         return built[0]
 
+    if "~" in prefix:
+        want_model = False      # j is beyond the phases the protocol model covers: monitors only
     out = mb.run_schedule(env, snap, mk)
     env = lab.env
     sched = {"wf": asdict(wf), "prefix": prefix, "ops": ops}
@@ -394,7 +401,7 @@ def run_one(lab: Lab, wf: Wf, prefix: list[str], ops: list[dict], snap, meta, re
         workers: list[str] = []
         sched_idx: list[int] = []
         for item in prefix:
-            if item == "+SG(j)":
+            if item in ("+SG(j)", "~"):
                 continue
             kind = "S" if item.startswith("SS(") else ("G" if item.startswith("SG(") else f"C{int(item[4:-1]) - 1}")
             workers.append(kind)
@@ -528,9 +535,11 @@ def unit_prefix(args: dict) -> dict:
             res["schedules"].append({"sched": {"wf": asdict(wf), "prefix": prefix, "ops": []}, "nontrivial": False, "blocked": False, "driver_line": None,
                                      "impl_line": None, "violations": [(f"sequential drain from prefix {prefix} ends {reason}/{ref_final['wf']}", "sequential-wedge")], "tags": []})
             ref_final = None
-        pairs = pairs_of(rows, dups=thorough)
+        pairs = pairs_of(rows, dups=True)
         if args.get("pair_filter"):
             pairs = [p for p in pairs if f"{p[0][0]}>{p[1][0]}" in args["pair_filter"]]
+        if args.get("only_pair") is not None:
+            pairs = [p for p in pairs if [list(p[0]), list(p[1])] == args["only_pair"]]
         for (a, b) in pairs:
             opsA = [{"name": "A", "code": a[0], "nth": a[1], "at": None}]
 
@@ -579,7 +588,7 @@ def unit_prefixes(args: dict) -> dict:
 # --------------------------------------------------------------------------------------
 
 IMPORTANT = {"SS(j)>SS(j)", "SS(j)>CS(u2)", "SS(j)>CS(u3)", "CS(u1)>CS(u2)", "CS(u2)>CS(u3)", "CS(u2)>SS(j)", "CS(u3)>SS(j)", "SS(j)>SG(j)", "SG(j)>SS(j)",
-             "CS(u2)>CS(u1)", "CS(u1)>SS(j)"}
+             "CS(u2)>CS(u1)", "CS(u1)>SS(j)", "CS(u1)>CS(u1)", "CS(u2)>CS(u2)"}
 
 
 def _pool(n: int):
@@ -588,23 +597,45 @@ def _pool(n: int):
     return mp.get_context("spawn").Pool(n)
 
 
-def explore(ctx, wfs: list[Wf], thorough: bool, depth2: list[str], pair_filter: set[str] | None, maxlen_extra: int = 2) -> None:
+def make_units(pre: list[dict], thorough: bool, depth2: list[str], pair_filter: set[str] | None, depth2_c: int) -> list[dict]:
+    units = []
+    for p in pre:
+        for prefix, codes in p["prefixes"]:
+            rows = list(enumerate(codes))
+            pairs = pairs_of(rows, dups=True)
+            if pair_filter:
+                pairs = [x for x in pairs if f"{x[0][0]}>{x[1][0]}" in pair_filter]
+            if not pairs:
+                pairs = [None]      # still check the sequential drain from this state
+            for pr in pairs:
+                units.append({"wf": p["wf"], "prefix": prefix, "thorough": thorough, "depth2": depth2, "depth2_c": depth2_c,
+                              "pair_filter": sorted(pair_filter) if pair_filter else None,
+                              "only_pair": [list(pr[0]), list(pr[1])] if pr else []})
+    return units
+
+
+def explore(ctx, jobs: list[dict]) -> None:
+    """jobs: [{"wfs": [...], "thorough", "depth2", "pair_filter", "maxlen_extra", "depth2_c"}] — all run in one pool."""
     nproc = min(16, os.cpu_count() or 4)
     t0 = time.time()
+    units: list[dict] = []
     with _pool(nproc) as pool:
-        pre = pool.map(unit_prefixes, [{"wf": asdict(w), "maxlen": 2 * w.n + maxlen_extra} for w in wfs])
-        units = []
-        for p in pre:
-            for prefix in p["prefixes"]:
-                units.append({"wf": p["wf"], "prefix": prefix, "thorough": thorough, "depth2": depth2, "pair_filter": sorted(pair_filter) if pair_filter else None,
-                              "depth2_c": 2 if thorough else 1})
-        ctx.rng.shuffle(units)
+        reqs = []
+        for jb in jobs:
+            reqs += [({"wf": asdict(w), "maxlen": 2 * w.n + jb.get("maxlen_extra", 2)}, jb) for w in jb["wfs"]]
+        pre = pool.map(unit_prefixes, [r[0] for r in reqs])
+        nstates = 0
+        for p, (_, jb) in zip(pre, reqs):
+            nstates += len(p["prefixes"])
+            units += make_units([p], jb["thorough"], jb["depth2"], jb.get("pair_filter"), jb.get("depth2_c", 1))
+        # big units first
+        units.sort(key=lambda u: (0 if u["depth2"] and u["only_pair"] and f"{u['only_pair'][0][0]}>{u['only_pair'][1][0]}" in u["depth2"] else 1))
         results = pool.map(unit_prefix, units, chunksize=1)
     digest(ctx, results)
-    ctx.extra.setdefault("modeb", {})
-    mbx = ctx.extra["modeb"]
-    mbx["workflows"] = mbx.get("workflows", 0) + len(wfs)
-    mbx["prefix_states"] = mbx.get("prefix_states", 0) + len(units)
+    mbx = ctx.extra.setdefault("modeb", {})
+    mbx["workflows"] = mbx.get("workflows", 0) + len(reqs)
+    mbx["prefix_states"] = mbx.get("prefix_states", 0) + nstates
+    mbx["units"] = mbx.get("units", 0) + len(units)
     mbx["explore_wall_s"] = round(mbx.get("explore_wall_s", 0) + time.time() - t0, 1)
 
 
@@ -620,7 +651,7 @@ def digest(ctx, results: list[dict]) -> None:
             ctx.count(canon, nontrivial=r["nontrivial"])
             mbx["schedules"] = mbx.get("schedules", 0) + 1
             depth = len(sched["ops"])
-            ctx.tag(f"depth{depth}")
+            ctx.tag(f"workers{depth}")
             for t in r["tags"]:
                 ctx.tag(t)
             if r["blocked"]:
@@ -687,24 +718,35 @@ def replay_body(body: dict) -> dict:
         lab.close()
 
 
+D2_QUICK = ["SS(j)>CS(u2)", "SS(j)>SS(j)", "CS(u2)>SS(j)", "SS(j)>SG(j)"]
+D2_THOROUGH = ["SS(j)>CS(u2)", "SS(j)>CS(u3)", "SS(j)>SS(j)", "CS(u2)>SS(j)", "SS(j)>SG(j)"]
+
+
 def run(ctx) -> None:
     _setup_process()
     run_replays(ctx)
     if ctx.thorough:
         wfs = workflows(True)
-        explore(ctx, wfs, True, depth2=sorted(IMPORTANT), pair_filter=None)
+        # depth 2 (a third worker nested at every legal point of the second) for the joins whose remaining branches finish later,
+        # the signal workflow and the zombie-capable one; depth 1 (all pairs incl. duplicate deliveries) for everything
+        d2keys = {"DISCRIMINATOR-n3-pre", "N_OF_M2-n3-pre", "AND-n2-pre-sig", "DISCRIMINATOR-n2-gen", "DISCRIMINATOR-n2-pre"}
+        d2 = [w for w in wfs if w.key() in d2keys]
+        rest = [w for w in wfs if w.key() not in d2keys]
+        explore(ctx, [{"wfs": d2, "thorough": True, "depth2": D2_THOROUGH, "pair_filter": None, "depth2_c": 1},
+                      {"wfs": rest, "thorough": True, "depth2": [], "pair_filter": None}])
     else:
         wfs = workflows(False)
-        explore(ctx, wfs, False, depth2=[], pair_filter=IMPORTANT)
-        # a seeded sample of depth-2 schedules
-        pick = ctx.rng.sample([w for w in wfs if w.n == 3 or w.signal], 2)
-        explore(ctx, pick, False, depth2=[ctx.rng.choice(["SS(j)>CS(u2)", "SS(j)>SS(j)", "CS(u2)>SS(j)"])], pair_filter={"SS(j)>CS(u2)", "SS(j)>SS(j)", "CS(u2)>SS(j)"}, maxlen_extra=0)
+        # a seeded sample of depth-2 schedules on top of all depth-1 schedules of the important pairs
+        pick = ctx.rng.sample([w for w in wfs if w.n == 3 or w.signal or not w.pre], 2)
+        d2pair = ctx.rng.choice(D2_QUICK[:3])
+        explore(ctx, [{"wfs": wfs, "thorough": False, "depth2": [], "pair_filter": IMPORTANT},
+                      {"wfs": pick, "thorough": False, "depth2": [d2pair], "pair_filter": {d2pair}, "maxlen_extra": 0}])
 
 
 def search(ctx) -> None:
     """Larger-budget hunt (monitors only): every pair at every prefix of every workflow, depth 2 for the important pairs."""
     _setup_process()
-    explore(ctx, workflows(True), True, depth2=sorted(IMPORTANT), pair_filter=None)
+    explore(ctx, [{"wfs": workflows(True), "thorough": True, "depth2": D2_QUICK, "pair_filter": None}])
 
 
 def replay(ctx, body) -> int:
